@@ -610,7 +610,7 @@ pub fn run_c05(ctx: &Ctx) -> i32 {
     });
     // exclusions over wildcard frames: decided under the dialects that have EXCLUDE / EXCEPT (the
     // others re-emit the excluded column through `*`: recorded finding, attributed per dialect)
-    ctx.tape_search("hazard/wild_except+exclude-dialects", ctx.n(3_000, 100_000), 450, |t| gen_case(t, Some("wild_except"), false), |c| {
+    ctx.tape_search("hazard/wild_except+exclude-dialects", ctx.n(8_000, 150_000), 450, |t| gen_case(t, Some("wild_except"), false), |c| {
         let mut o = check(c, &ctx.known, Mode::C05, true);
         o.nontrivial = o.classes.iter().any(|k| k == "column_exclusion_emitted");
         o
